@@ -441,6 +441,12 @@ class Multiplexer(wiring.Component):
                     chunk = Multiplexer._Shadow.Chunk(self, chunk_offset, chunk_registers)
                     self._chunks[chunk_offset] = chunk
             else:
+                # Once the shadow is large enough for every address bit of every register to take
+                # part in decoding, doubling it again cannot change which chunks alias each other.
+                if self._size > 2 ** ceil_log2(max(r.stop for r in self._ranges)):
+                    raise ValueError(f"Shadow register {self.name!r} cannot satisfy the constraint of "
+                                     f"at most {self.overlaps} overlaps for the CSR register ranges "
+                                     f"{ranges!r}")
                 self._size *= 2
                 self.prepare()
 
